@@ -173,6 +173,17 @@ def cases():
         m.fit(X, Y)
         return m.predict(X), m.transform(X, Y)
     add("CP_PLSR.fit+predict+transform", plsr, Xr, g.standard_normal((14, 2)))
+    def plsr_vec(X, yv):
+        m = RG.CP_PLSR(n_components=2)
+        m.fit(X, yv)
+        return m.transform(X, yv), m.fit_transform(X, yv), m.predict(X)
+    add("CP_PLSR.fit+transform+fit_transform[vector Y]", plsr_vec, Xr, g.standard_normal(14))
+    add("CP_PLSR.fit+transform[Y a column view]", plsr, Xr, g.standard_normal((2, 14)).T)
+    add("parafac[mask,tol=0,no errors]", D.parafac, X, 3, n_iter_max=3, mask=mask, tol=0)
+    add("parafac[mask,tol=None,init=tuple]", D.parafac, np.ascontiguousarray(X), 3, init=cp(), n_iter_max=3, mask=mask, tol=None)
+    add("tucker[mask,tol=0]", D.tucker, np.ascontiguousarray(X), [2, 2, 2], n_iter_max=3, mask=mask, tol=0)
+    add("non_negative_parafac[mask,tol=0]", D.non_negative_parafac, Xp, 3, n_iter_max=3, mask=mask, tol=0)
+    add("cp_permute_factors[list of tensors]", CT.cp_permute_factors, CT.CPTensor((w, fs)), [CT.CPTensor((w[::-1].copy(), [f[:, ::-1].copy() for f in fs])), CT.CPTensor((w.copy(), [f.copy() for f in fs]))])
     # exits through exceptions
     add("parafac[bad init -> ValueError]", D.parafac, X, 3, init="nope", fixed_modes=[2, 0])
     add("mode_dot[shape mismatch -> ValueError]", T.mode_dot, X, M0, 1)
